@@ -96,6 +96,9 @@ type Exec struct {
 	scratchDepth int
 	ImmutableGlobals map[string]bool
 	iteDepth         int
+	Unroll           int
+	SafetyOff        bool
+	SafetySkipped    int
 	heapTrace        map[string]*Sort
 }
 
@@ -132,6 +135,15 @@ func (X *Exec) oblige(st *State, kind, label, desc string, p token.Pos, goal *Te
 	ts := X.E.TS
 	if st.Dead {
 		return
+	}
+	if X.SafetyOff && label == "" {
+		switch kind {
+		case "bounds", "nil", "typeassert", "div", "pre":
+			// path/effect contract only: run-time panics of this function are not part of the claim
+			X.SafetySkipped++
+			st.assume(ts, goal)
+			return
+		}
 	}
 	if !X.probe {
 		o := &Obligation{Fn: X.TopKey, Kind: kind, Label: label, Pos: X.pos(p), Desc: desc, Hyp: st.PC, Goal: goal}
@@ -284,6 +296,21 @@ func (X *Exec) runRegion(fr *Frame, cfg *cfgInfo, region map[int]bool, start *ss
 		}
 		cur := X.merge(in[b.Index])
 		if cur.Dead {
+			continue
+		}
+		if li := cfg.heads[b.Index]; li != nil && li != self && X.Unroll > 0 {
+			// unrolling mode (counterexample search): no invariants, no havoc, at most Unroll iterations
+			st := cur
+			for it := 0; it <= X.Unroll && !st.Dead; it++ {
+				ex, la := X.runRegion(fr, cfg, li.Body, li.Head, st, li)
+				for _, e := range ex {
+					route(e.From, fn.Blocks[e.To], e.St)
+				}
+				st = X.merge(la)
+			}
+			for k := range li.Body {
+				done[k] = true
+			}
 			continue
 		}
 		if li := cfg.heads[b.Index]; li != nil && li != self {
